@@ -14,7 +14,7 @@ Definition jac_compose (jf : list (mat3 R)) (ji : list (list R)) : list (list R)
 Definition I33 : list (list R) := [[1; 0; 0]; [0; 1; 0]; [0; 0; 1]].
 
 Ltac junf :=
-  cbv [jac_compose jcol ldot lmatmul_cols lcols3 lcols4 lcols5 row_T33 rod_inv_jac_generic rod_inv_jac_identity zeros93
+  lazy [jac_compose jcol ldot lmatmul_cols lcols3 lcols4 lcols5 row_T33 rod_inv_jac_generic rod_inv_jac_identity zeros93
        repeat map map2 zip fst snd nsum fold_left List.nth m3list
        rod_jac_row rod_drrt rod_dskew m3add m3scale m3outer m3skew rod_m1 rod_half nfrac vget vscale I3
        n0 n1 n2 a00 a01 a02 a10 a11 a12 a20 a21 a22 vx vy vz];
